@@ -355,8 +355,8 @@ func runC15Frames(cs CaseSpec) *CaseResult {
 func init() {
 	register(&PropDef{
 		ID: "C15", Level: "exploration", Engine: "dagcheck",
-		Rule: "two kinds of cases: (a) ~150 generated events per case with payloads from a variant grammar (nil vs empty at every slice level, empty/binary/60kB transactions, 0..many internal transactions and block signatures, all parent combinations, extreme timestamps, peers with odd monikers) converted event->wire->transport JSON->event on a second real Hashgraph that knows the parents, event->DB form->event, written to a real Badger store with a cache smaller than the number of events, read back after eviction and after close/reopen: hash, signature validity, payload bytes, wire form and private fields must be identical; (b) all blocks and frames of real nodesim histories through the FastForwardResponse JSON transport, the canonical encoding and a rebuild with permuted map fill order: hashes equal, signatures valid; non-trivial: >=100 events or >=3 block/frame pairs converted",
-		Assumptions: []string{"block signatures inside generated events are attributed to the event's creator (the wire form carries no validator field by design)"},
+		Rule:          "two kinds of cases: (a) ~150 generated events per case with payloads from a variant grammar (nil vs empty at every slice level, empty/binary/60kB transactions, 0..many internal transactions and block signatures, all parent combinations, extreme timestamps, peers with odd monikers) converted event->wire->transport JSON->event on a second real Hashgraph that knows the parents, event->DB form->event, written to a real Badger store with a cache smaller than the number of events, read back after eviction and after close/reopen: hash, signature validity, payload bytes, wire form and private fields must be identical; (b) all blocks and frames of real nodesim histories through the FastForwardResponse JSON transport, the canonical encoding and a rebuild with permuted map fill order: hashes equal, signatures valid; non-trivial: >=100 events or >=3 block/frame pairs converted",
+		Assumptions:   []string{"block signatures inside generated events are attributed to the event's creator (the wire form carries no validator field by design)"},
 		MinNontrivial: 8,
 		Cases: func(tier string, seed int64) []CaseSpec {
 			count := 24
